@@ -55,6 +55,9 @@ def run(tier):
     n = 360 if tier == "quick" else 5000
     blocks = gen.blocks(sd * 33 + 2, n) + (rng.sample(gen.rule_corpus(), 120) if tier == "quick" else gen.rule_corpus())
     blocks += ["PUSH0 DUP1 PUSH1 0x5 DUP1", "PUSH1 0x0 DUP1 PUSH2 0x1234 DUP1 DUP1", "PUSH1 0x0 PUSH1 0x0 PUSH1 0x7 PUSH1 0x7"]
+    # a value without operands needed twice: whether to copy it or to compute it again depends on the price of its opcode alone
+    for x in gen.ENV0:
+        blocks += ["%s DUP1 ADD" % x, "%s DUP1 DUP2 MUL SUB" % x, "%s DUP1 SWAP2 POP" % x]
     for _ in range(60 if tier == "quick" else 600):
         # blocks where gas and size pull in opposite directions: repeated constants of various widths
         k = rng.choice([0, 0, 1, 0xff, 0x1234, 2 ** 64, 2 ** 255])
@@ -68,7 +71,7 @@ def run(tier):
             osets.append(["-greedy"] + co + extra)
     runs = e2e.run_optimize(blocks, osets, assign="rotate" if tier == "quick" else "all")
     # witness blocks under every criterion
-    runs += e2e.run_optimize(blocks[-(63 if tier == "quick" else 603):] + gen.size_fold_corpus(), [["-greedy"], ["-greedy", "-size"], ["-greedy", "-length"]], assign="all")
+    runs += e2e.run_optimize(blocks[-(63 + 3 * len(gen.ENV0) if tier == "quick" else 603 + 3 * len(gen.ENV0)):] + gen.size_fold_corpus(), [["-greedy"], ["-greedy", "-size"], ["-greedy", "-length"]], assign="all")
     reqs, meta = [], []
     for text, opts, e, st in runs:
         if e is None:
